@@ -47,7 +47,8 @@ def run(ctx):
     rp.close()
     # the assembler side of the clause: the word count announced for an instruction counts both words of a 64-bit literal
     import c04
-    c04.assemble_index(ctx, q, S)
+    import common as _common
+    _common.composed(ctx, "C04-assembler-framing", lambda: c04.assemble_index(ctx, q, S))
     ctx.validated = rp.count
     if ctx.tier == "thorough":
         res = kani.run_many(["k_parse_literal"], cap_s=1500)
